@@ -753,6 +753,8 @@ class Lib:
 
     def hash_of(self, ctx, x):
         """hash() of builtin values: an uninterpreted function of the value (equal values => equal hashes)."""
+        if hasattr(x, "term") and type(x).__name__ == "_RawHash":
+            return x.term  # spec side: a tuple component whose hash is given directly
         if isinstance(x, tuple):
             h = self.e.uf("hash!tuple%d" % len(x), *([z3.IntSort()] * len(x)), z3.IntSort())
             return h(*[V.Int.unwrap(self.bi_hash(ctx, c)) for c in x])
@@ -771,6 +773,8 @@ class Lib:
                 return self.e.uf("hash!str", z3.StringSort(), z3.IntSort())(x)
             if z3.is_real(x):
                 return self.e.uf("hash!real", z3.RealSort(), z3.IntSort())(x)
+            if x.sort() == V.PyValSort:
+                return self.e.uf("hash!val", V.PyValSort, z3.IntSort())(x)
         if isinstance(x, V.FractionV):
             return self.e.uf("hash!real", z3.RealSort(), z3.IntSort())(x.term)
         if isinstance(x, SymSet):
